@@ -42,7 +42,11 @@ def run(ctx):
         raise vlib.Infra("SharedMem produced no schedules:\n" + r["out"][-2000:])
     rnd = random.Random(ctx.seed)
     if ctx.quick:
-        scn = rnd.sample(scn, min(len(scn), 700))
+        # every overlap of two calls on the SAME codec (the only ones that can share a codec or parameters object),
+        # plus a seeded sample of the cross-codec overlaps
+        same = [s for s in scn if len({c["codec"] for c in s["calls"]}) == 1]
+        other = [s for s in scn if len({c["codec"] for c in s["calls"]}) > 1]
+        scn = same + rnd.sample(other, min(len(other), 350))
     scnf = os.path.join(wd, "sched.ndjson")
     with open(scnf, "w") as f:
         for s in scn:
